@@ -5,6 +5,7 @@ import (
 	"go/constant"
 	"go/token"
 	"go/types"
+	"math"
 	"reflect"
 	"sort"
 	"strings"
@@ -648,6 +649,9 @@ func (di *dynInterp) eval(f *ssa.Function, v ssa.Value, ins ssa.Instruction, get
 					if in.c.Kind() == constant.Int {
 						return in
 					}
+					if ti := constant.ToInt(in.c); ti.Kind() == constant.Int {
+						return aval{k: avConst, c: ti} // an integral float converts exactly (also beyond int64: uint64(2^63))
+					}
 					f, _ := constant.Float64Val(in.c)
 					return cInt(int64(f))
 				}
@@ -881,6 +885,12 @@ func (di *dynInterp) call(f *ssa.Function, c *ssa.Call, get func(ssa.Value) aval
 	}
 	q := core.QualName(g)
 	switch q {
+	case "reflect.DeepEqual":
+		// two typed constants: deeply equal iff same dynamic type and same value
+		if di.arith && len(args) == 2 && args[0].k == avDyn && args[1].k == avDyn && args[0].c != nil && args[1].c != nil {
+			return cBool(args[0].a == args[1].a && constant.Compare(args[0].c, token.EQL, args[1].c))
+		}
+		return top
 	case "reflect.ValueOf", "reflect.TypeOf":
 		return args[0]
 	case "reflect.Indirect", "reflect.Value.Interface", "reflect.Value.Type":
@@ -934,9 +944,11 @@ func (di *dynInterp) call(f *ssa.Function, c *ssa.Call, get func(ssa.Value) aval
 		}
 	}
 	if di.arith && q == "math.Trunc" && args[0].k == avConst {
+		if ti := constant.ToInt(args[0].c); ti.Kind() == constant.Int {
+			return aval{k: avConst, c: constant.ToFloat(args[0].c)} // integral: its own truncation, at any magnitude
+		}
 		f, _ := constant.Float64Val(constant.ToFloat(args[0].c))
-		t := float64(int64(f))
-		return aval{k: avConst, c: constant.MakeFloat64(t)}
+		return aval{k: avConst, c: constant.MakeFloat64(math.Trunc(f))}
 	}
 	if di.arith && g.Pkg != nil && g.Pkg.Pkg.Path() == "github.com/go-openapi/errors" {
 		return aval{k: avValid} // message constructors return a non-nil error value
@@ -977,7 +989,9 @@ func (di *dynInterp) kindGuarded(c *ssa.Call, method string) bool {
 	return true
 }
 
-// kindSetAt: possible values (0..26) of the integer SSA value kv on entry to block blk, from comparisons with constants.
+// kindSetAt: possible values (0..26) of the integer SSA value kv on entry to block blk, from comparisons with
+// constants and from boolean predicates of the package applied to kv (isIntKind(k), evaluated per kind). Sets are
+// kept per incoming edge so that short-circuit conditions (`p(k) && q(j)`: a φ of {false, q(j)}) refine too.
 func kindSetAt(kv ssa.Value, blk *ssa.BasicBlock) map[int]bool {
 	f := blk.Parent()
 	full := func() map[int]bool {
@@ -987,50 +1001,130 @@ func kindSetAt(kv ssa.Value, blk *ssa.BasicBlock) map[int]bool {
 		}
 		return m
 	}
-	in := map[*ssa.BasicBlock]map[int]bool{f.Blocks[0]: full()}
-	work := []*ssa.BasicBlock{f.Blocks[0]}
-	for n := 0; len(work) > 0 && n < 5000; n++ {
-		b := work[0]
-		work = work[1:]
-		cur := in[b]
-		for si, s := range b.Succs {
-			out := map[int]bool{}
-			for k := range cur {
-				out[k] = true
+	type edgeKey [2]*ssa.BasicBlock
+	inEdge := map[edgeKey]map[int]bool{}
+	entry := f.Blocks[0]
+	inOf := func(b *ssa.BasicBlock) map[int]bool {
+		if b == entry {
+			return full()
+		}
+		u := map[int]bool{}
+		for _, pr := range b.Preds {
+			for k := range inEdge[edgeKey{pr, b}] {
+				u[k] = true
 			}
-			if ifi, ok := b.Instrs[len(b.Instrs)-1].(*ssa.If); ok && len(b.Succs) == 2 && b.Succs[0] != b.Succs[1] {
-				if bo, ok := ifi.Cond.(*ssa.BinOp); ok {
-					var cst int64
-					okc := false
-					op := bo.Op
-					if bo.X == kv {
-						cst, okc = core.ConstInt(bo.Y)
-					} else if bo.Y == kv {
-						cst, okc = core.ConstInt(bo.X)
-						switch op {
-						case token.LSS:
-							op = token.GTR
-						case token.GTR:
-							op = token.LSS
-						case token.LEQ:
-							op = token.GEQ
-						case token.GEQ:
-							op = token.LEQ
+		}
+		return u
+	}
+	// refine: the kinds of `set` for which the boolean value v can equal want
+	var refine func(v ssa.Value, want bool, set map[int]bool, b *ssa.BasicBlock, d int) map[int]bool
+	refine = func(v ssa.Value, want bool, set map[int]bool, b *ssa.BasicBlock, d int) map[int]bool {
+		cp := func() map[int]bool {
+			o := map[int]bool{}
+			for k := range set {
+				o[k] = true
+			}
+			return o
+		}
+		if d > 4 {
+			return cp()
+		}
+		switch x := v.(type) {
+		case *ssa.Const:
+			if x.Value != nil && x.Value.Kind() == constant.Bool {
+				if constant.BoolVal(x.Value) == want {
+					return cp()
+				}
+				return map[int]bool{}
+			}
+		case *ssa.UnOp:
+			if x.Op == token.NOT {
+				return refine(x.X, !want, set, b, d+1)
+			}
+		case *ssa.Call:
+			if g := core.StaticCallee(x); g != nil && len(x.Call.Args) == 1 && x.Call.Args[0] == kv && kindPredicateOf != nil {
+				if tbl := kindPredicateOf(g); tbl != nil {
+					o := map[int]bool{}
+					for k := range set {
+						if tbl[k] == want {
+							o[k] = true
 						}
 					}
-					if okc {
-						for k := range cur {
-							holds := constant.Compare(constant.MakeInt64(int64(k)), op, constant.MakeInt64(cst))
-							if holds != (si == 0) {
-								delete(out, k)
-							}
-						}
-					}
+					return o
 				}
 			}
-			old, seen := in[s]
+		case *ssa.BinOp:
+			var cst int64
+			okc := false
+			op := x.Op
+			if x.X == kv {
+				cst, okc = core.ConstInt(x.Y)
+			} else if x.Y == kv {
+				cst, okc = core.ConstInt(x.X)
+				switch op {
+				case token.LSS:
+					op = token.GTR
+				case token.GTR:
+					op = token.LSS
+				case token.LEQ:
+					op = token.GEQ
+				case token.GEQ:
+					op = token.LEQ
+				}
+			}
+			if okc {
+				o := map[int]bool{}
+				for k := range set {
+					if constant.Compare(constant.MakeInt64(int64(k)), op, constant.MakeInt64(cst)) == want {
+						o[k] = true
+					}
+				}
+				return o
+			}
+		case *ssa.Phi:
+			// a φ defined in the branching block itself: per incoming edge
+			if x.Block() == b {
+				o := map[int]bool{}
+				for i, e := range x.Edges {
+					es := inEdge[edgeKey{b.Preds[i], b}]
+					if b == entry {
+						es = full()
+					}
+					// restrict to the kinds of `set` (set is the union over the edges)
+					sub := map[int]bool{}
+					for k := range es {
+						if set[k] {
+							sub[k] = true
+						}
+					}
+					for k := range refine(e, want, sub, b.Preds[i], d+1) {
+						o[k] = true
+					}
+				}
+				return o
+			}
+		}
+		return cp()
+	}
+	work := []*ssa.BasicBlock{entry}
+	for n := 0; len(work) > 0 && n < 8000; n++ {
+		b := work[0]
+		work = work[1:]
+		cur := inOf(b)
+		for si, s := range b.Succs {
+			out := cur
+			if ifi, ok := b.Instrs[len(b.Instrs)-1].(*ssa.If); ok && len(b.Succs) == 2 && b.Succs[0] != b.Succs[1] {
+				out = refine(ifi.Cond, si == 0, cur, b, 0)
+			} else {
+				out = map[int]bool{}
+				for k := range cur {
+					out[k] = true
+				}
+			}
+			key := edgeKey{b, s}
+			old, seen := inEdge[key]
 			if !seen {
-				in[s] = out
+				inEdge[key] = out
 				work = append(work, s)
 				continue
 			}
@@ -1046,7 +1140,7 @@ func kindSetAt(kv ssa.Value, blk *ssa.BasicBlock) map[int]bool {
 			}
 		}
 	}
-	return in[blk]
+	return inOf(blk)
 }
 
 func (di *dynInterp) validGuarded(c *ssa.Call) bool {
@@ -1057,6 +1151,17 @@ func (di *dynInterp) validGuarded(c *ssa.Call) bool {
 			switch core.QualName(g) {
 			case "reflect.Value.Index", "reflect.Value.Convert", "reflect.Zero":
 				return true
+			case "reflect.Value.MapIndex":
+				// m.MapIndex(k) with k an element of m.MapKeys(): the entry exists
+				if ld, isLd := rc.Call.Args[1].(*ssa.UnOp); isLd {
+					if ia, isIA := ld.X.(*ssa.IndexAddr); isIA {
+						if kc, isKC := ia.X.(*ssa.Call); isKC {
+							if kg := core.StaticCallee(kc); kg != nil && core.QualName(kg) == "reflect.Value.MapKeys" && kc.Call.Args[0] == rc.Call.Args[0] {
+								return true
+							}
+						}
+					}
+				}
 			}
 		}
 	}
@@ -1109,6 +1214,7 @@ func Dyn(ruleName string, entries []DynEntry, universe []atom, domainText string
 }
 
 func runDyn(p *core.Prog, r *core.Report, ruleName string, entries []DynEntry, universe []atom, domainText string, opts ...string) *dynInterp {
+	kindPredProg = p
 	noApplies := false
 	for _, o := range opts {
 		if o == "no-applies" {
@@ -1251,3 +1357,48 @@ func opName(ins ssa.Instruction) string {
 	}
 	return "op"
 }
+
+// kindPredicateOf answers, for a boolean function of one reflect.Kind, its truth table over the 27 kinds
+// (nil when the function is not such a predicate or does not evaluate to a constant for some kind). Set by the
+// interpreter so that the table is computed by the interpreter itself.
+var kindPredicateOf func(g *ssa.Function) map[int]bool
+
+func init() {
+	cache := map[*ssa.Function]map[int]bool{}
+	kindPredicateOf = func(g *ssa.Function) map[int]bool {
+		if t, ok := cache[g]; ok {
+			return t
+		}
+		cache[g] = nil
+		if g == nil || len(g.Blocks) == 0 || len(g.Params) != 1 || g.Signature.Results().Len() != 1 {
+			return nil
+		}
+		if b, ok := g.Signature.Results().At(0).Type().Underlying().(*types.Basic); !ok || b.Kind() != types.Bool {
+			return nil
+		}
+		if !strings.HasSuffix(g.Params[0].Type().String(), "reflect.Kind") || kindPredProg == nil {
+			return nil
+		}
+		tbl := map[int]bool{}
+		for k := 0; k <= 26; k++ {
+			if kindPredNA == nil || kindPredNAProg != kindPredProg {
+				kindPredNA, kindPredNAProg = newNilAn(kindPredProg), kindPredProg
+			}
+			di := newRegionInterp(kindPredProg, kindPredNA)
+			di.startAt = nil
+			di.arith = true
+			res := di.run(g, []aval{cInt(int64(k))}, 0)
+			if res.k != avConst || res.c.Kind() != constant.Bool {
+				return nil
+			}
+			tbl[k] = constant.BoolVal(res.c)
+		}
+		cache[g] = tbl
+		return tbl
+	}
+}
+
+// kindPredProg is the program the kind predicates are evaluated in (set by runDyn / the rules that use kindSetAt).
+var kindPredProg *core.Prog
+var kindPredNA *nilAn
+var kindPredNAProg *core.Prog
